@@ -1,6 +1,8 @@
 import PoryProofs.BoolParse
 import PoryProofs.CmdParse
 import PoryProofs.SwitchParse
+import PoryProofs.AutoVarParse
+import PoryProofs.Properties.C11b
 /-
 P1 (statement grammar), stage 1: the surface syntax of script bodies, its printer, the decidable
 token-type side conditions, and the reference elaboration.
@@ -35,10 +37,33 @@ token-type side conditions, and the reference elaboration.
 
 Stage 2 / 3 (the parser on printed blocks) is `PoryProofs/StmtParse.lean`.
 -/
-namespace Pory.P1
+namespace Pory.StmtG
 open Pory Pory.Parser Pory.C02P Pory.C10b Pory.SwitchParse
+open Pory.C14b (swVal)
+open Pory.C11b (operandName badPosMsg Form printAuto autoLeafT leftSideMsg)
 
 /-! ### surface syntax -/
+
+/-- A condition: an expression of the grammar `SOr` (`||`, `&&`, `!( )`, parentheses over the non-autovar
+leaves), or a single auto-var leaf `[!] name ( a0 , … ) [op N]` (`C11b.printAuto`). -/
+inductive SCond where
+  | plain (g : SOr)
+  | auto (fm : Form) (name lp : Tok) (a0 : List Tok) (more : List (Tok × List Tok)) (rp : Tok)
+
+def printCond : SCond → List Tok
+  | .plain g => printOr g
+  | .auto fm name lp a0 more rp => printAuto fm name lp a0 more rp
+
+def swfCond : SCond → Bool
+  | .plain _ => true
+  | .auto _ name lp a0 more rp =>
+      name.type == .IDENT && lp.type == .LPAREN && rp.type == .RPAREN && decide (ArgOK a0) &&
+        more.all (fun p => p.1.type == .COMMA && decide (ArgOK p.2))
+
+def needCond : SCond → Nat
+  | .plain g => needOr g
+  | .auto _ _ _ a0 more _ => a0.length + (printMore more).length + 3
+
 mutual
 inductive SStmt where
   /-- `name ( a0 , a1 , … )`; `more` = (comma token, argument) pairs -/
@@ -52,22 +77,27 @@ inductive SStmt where
   /-- `name ( global ) :` / `name ( local ) :` -/
   | labelS (name lp scope rp colon : Tok)
   /-- `if ( c ) { body } elifs els` -/
-  | ite (ifTok lp : Tok) (c : SOr) (rp lb : Tok) (body : List SStmt) (rb : Tok)
+  | ite (ifTok lp : Tok) (c : SCond) (rp lb : Tok) (body : List SStmt) (rb : Tok)
       (elifs : List SElif) (els : SElse)
   /-- `while ( c ) { body }` -/
-  | while_ (wTok lp : Tok) (c : SOr) (rp lb : Tok) (body : List SStmt) (rb : Tok)
+  | while_ (wTok lp : Tok) (c : SCond) (rp lb : Tok) (body : List SStmt) (rb : Tok)
   /-- `while { body }` -/
   | whileInf (wTok lb : Tok) (body : List SStmt) (rb : Tok)
   /-- `do { body } while ( c )` -/
-  | doWhile (doTok lb : Tok) (body : List SStmt) (rb wTok lp : Tok) (c : SOr) (rp : Tok)
+  | doWhile (doTok lb : Tok) (body : List SStmt) (rb wTok lp : Tok) (c : SCond) (rp : Tok)
   | brk (t : Tok)
   | cont (t : Tok)
   /-- `switch ( var ( operand… ) ) { cases }` -/
   | switch_ (swTok lp varTok lp2 : Tok) (operand : List Tok) (rp2 rp lb : Tok) (cases : List SCase)
       (rb : Tok)
+  /-- `switch ( name ( a0 , a1 , … ) ) { cases }` on a configured auto-var command -/
+  | switchA (swTok lp name lp2 : Tok) (a0 : List Tok) (more : List (Tok × List Tok)) (rp2 rp lb : Tok)
+      (cases : List SCase) (rb : Tok)
+  /-- `poryswitch ( X ) { cases }` -/
+  | pory (psTok lp x rp lb : Tok) (cases : List SPCase) (rb : Tok)
 inductive SElif where
   /-- `elif ( c ) { body }` -/
-  | mk (eTok lp : Tok) (c : SOr) (rp lb : Tok) (body : List SStmt) (rb : Tok)
+  | mk (eTok lp : Tok) (c : SCond) (rp lb : Tok) (body : List SStmt) (rb : Tok)
 inductive SElse where
   | none
   /-- `else { body }` -/
@@ -77,6 +107,11 @@ inductive SCase where
   | case (cTok : Tok) (vs : List Tok) (colon : Tok) (body : List SStmt)
   /-- `default : body` -/
   | dflt (dTok colon : Tok) (body : List SStmt)
+inductive SPCase where
+  /-- `key : stmt` (exactly one statement) -/
+  | colon (key c : Tok) (stmt : SStmt)
+  /-- `key { body }` -/
+  | brace (key lb : Tok) (body : List SStmt) (rb : Tok)
 end
 
 /-! ### printer -/
@@ -88,19 +123,22 @@ def printS : SStmt → List Tok
   | .label name colon => [name, colon]
   | .labelS name lp sc rp colon => [name, lp, sc, rp, colon]
   | .ite ifTok lp c rp lb body rb elifs els =>
-      ifTok :: lp :: (printOr c ++ rp :: lb :: (printL body ++ rb :: (printElifs elifs ++ printElse els)))
-  | .while_ w lp c rp lb body rb => w :: lp :: (printOr c ++ rp :: lb :: (printL body ++ [rb]))
+      ifTok :: lp :: (printCond c ++ rp :: lb :: (printL body ++ rb :: (printElifs elifs ++ printElse els)))
+  | .while_ w lp c rp lb body rb => w :: lp :: (printCond c ++ rp :: lb :: (printL body ++ [rb]))
   | .whileInf w lb body rb => w :: lb :: (printL body ++ [rb])
-  | .doWhile d lb body rb w lp c rp => d :: lb :: (printL body ++ rb :: w :: lp :: (printOr c ++ [rp]))
+  | .doWhile d lb body rb w lp c rp => d :: lb :: (printL body ++ rb :: w :: lp :: (printCond c ++ [rp]))
   | .brk t => [t]
   | .cont t => [t]
   | .switch_ sw lp v lp2 ops rp2 rp lb cases rb =>
       sw :: lp :: v :: lp2 :: (ops ++ rp2 :: rp :: lb :: (printCases cases ++ [rb]))
+  | .switchA sw lp name lp2 a0 more rp2 rp lb cases rb =>
+      sw :: lp :: (printCmd name lp2 a0 more rp2 ++ rp :: lb :: (printCases cases ++ [rb]))
+  | .pory ps lp x rp lb cases rb => ps :: lp :: x :: rp :: lb :: (printPCases cases ++ [rb])
 def printL : List SStmt → List Tok
   | [] => []
   | x :: r => printS x ++ printL r
 def printElif : SElif → List Tok
-  | .mk e lp c rp lb body rb => e :: lp :: (printOr c ++ rp :: lb :: (printL body ++ [rb]))
+  | .mk e lp c rp lb body rb => e :: lp :: (printCond c ++ rp :: lb :: (printL body ++ [rb]))
 def printElifs : List SElif → List Tok
   | [] => []
   | e :: r => printElif e ++ printElifs r
@@ -113,6 +151,12 @@ def printCase : SCase → List Tok
 def printCases : List SCase → List Tok
   | [] => []
   | c :: r => printCase c ++ printCases r
+def printPCase : SPCase → List Tok
+  | .colon key c x => key :: c :: printS x
+  | .brace key lb body rb => key :: lb :: (printL body ++ [rb])
+def printPCases : List SPCase → List Tok
+  | [] => []
+  | c :: r => printPCase c ++ printPCases r
 end
 
 /-- `printStmts` of the task statement. -/
@@ -136,29 +180,37 @@ def swfS : SStmt → Bool
   | .labelS name lp sc rp colon =>
       name.type == .IDENT && lp.type == .LPAREN && (sc.type == .GLOBAL || sc.type == .LOCAL) &&
         rp.type == .RPAREN && colon.type == .COLON
-  | .ite ifTok lp _ rp lb body rb elifs els =>
+  | .ite ifTok lp c rp lb body rb elifs els =>
       ifTok.type == .IF && lp.type == .LPAREN && rp.type == .RPAREN && lb.type == .LBRACE &&
-        rb.type == .RBRACE && swfL body && swfElifs elifs && swfElse els
-  | .while_ w lp _ rp lb body rb =>
+        rb.type == .RBRACE && swfL body && swfElifs elifs && swfElse els && swfCond c
+  | .while_ w lp c rp lb body rb =>
       w.type == .WHILE && lp.type == .LPAREN && rp.type == .RPAREN && lb.type == .LBRACE &&
-        rb.type == .RBRACE && swfL body
+        rb.type == .RBRACE && swfL body && swfCond c
   | .whileInf w lb body rb => w.type == .WHILE && lb.type == .LBRACE && rb.type == .RBRACE && swfL body
-  | .doWhile d lb body rb w lp _ rp =>
+  | .doWhile d lb body rb w lp c rp =>
       d.type == .DO && lb.type == .LBRACE && rb.type == .RBRACE && w.type == .WHILE &&
-        lp.type == .LPAREN && rp.type == .RPAREN && swfL body
+        lp.type == .LPAREN && rp.type == .RPAREN && swfL body && swfCond c
   | .brk t => t.type == .BREAK
   | .cont t => t.type == .CONTINUE
   | .switch_ sw lp v lp2 ops rp2 rp lb cases rb =>
       sw.type == .SWITCH && lp.type == .LPAREN && v.type == .VAR && lp2.type == .LPAREN &&
         ops.all operandTok && rp2.type == .RPAREN && rp.type == .RPAREN && lb.type == .LBRACE &&
         rb.type == .RBRACE && swfCases cases
+  | .switchA sw lp name lp2 a0 more rp2 rp lb cases rb =>
+      sw.type == .SWITCH && lp.type == .LPAREN && name.type == .IDENT && lp2.type == .LPAREN &&
+        decide (ArgOK a0) && more.all (fun p => p.1.type == .COMMA && decide (ArgOK p.2)) &&
+        rp2.type == .RPAREN && rp.type == .RPAREN && lb.type == .LBRACE && rb.type == .RBRACE &&
+        swfCases cases
+  | .pory ps lp x rp lb cases rb =>
+      ps.type == .PORYSWITCH && lp.type == .LPAREN && x.type == .IDENT && rp.type == .RPAREN &&
+        lb.type == .LBRACE && rb.type == .RBRACE && swfPCases cases
 def swfL : List SStmt → Bool
   | [] => true
   | x :: r => swfS x && swfL r
 def swfElif : SElif → Bool
-  | .mk e lp _ rp lb body rb =>
+  | .mk e lp c rp lb body rb =>
       e.type == .ELSEIF && lp.type == .LPAREN && rp.type == .RPAREN && lb.type == .LBRACE &&
-        rb.type == .RBRACE && swfL body
+        rb.type == .RBRACE && swfL body && swfCond c
 def swfElifs : List SElif → Bool
   | [] => true
   | e :: r => swfElif e && swfElifs r
@@ -171,6 +223,13 @@ def swfCase : SCase → Bool
 def swfCases : List SCase → Bool
   | [] => true
   | c :: r => swfCase c && swfCases r
+def swfPCase : SPCase → Bool
+  | .colon key c x => (key.type == .IDENT || key.type == .INT) && c.type == .COLON && swfS x
+  | .brace key lb body rb =>
+      (key.type == .IDENT || key.type == .INT) && lb.type == .LBRACE && rb.type == .RBRACE && swfL body
+def swfPCases : List SPCase → Bool
+  | [] => true
+  | c :: r => swfPCase c && swfPCases r
 end
 
 /-- Well-formedness of a printed block: the token types of the documented grammar. -/
@@ -190,6 +249,43 @@ def secondDefaultErr (d : Tok) : PFail := newParseError d multiDefaultMsg
 def emptySwitchErr (sw rb : Tok) : PFail :=
   newRangeParseError sw rb "switch statement has no cases or default case"
 
+def notAutoVarErr (name : Tok) : PFail :=
+  newParseError name
+    s!"expected next token to be '{TT.VAR.str}' or auto-var command, got '{name.lit}' instead"
+def badPosErr (name rp2 : Tok) (pos : Int) (nargs : Nat) : PFail :=
+  newRangeParseError name rp2 (badPosMsg name.lit pos nargs)
+
+/-- The configured argument position of an auto-var command when it does not address one of `nargs`
+arguments. -/
+def autoPosBad (av : AutoVar) (nargs : Nat) : Option Int :=
+  match av.argPos with
+  | none => none
+  | some pos => if pos < 0 || pos > (nargs : Int) - 1 then some pos else none
+
+def notLeafErr (name : Tok) : PFail := newParseError name (leftSideMsg name.lit)
+
+/-- The tree of a condition and the command id after it (an auto-var leaf runs its command first: it takes
+the next command id). -/
+def elabCond (env : Env) (σ : String → String) : SCond → Nat → Except PFail (BoolExpr × Nat)
+  | .plain g, cid => .ok (treeOr σ false g, cid)
+  | .auto fm name _ a0 more rp, cid =>
+      match env.autoVars.lookup name.lit with
+      | none => .error (notLeafErr name)
+      | some av =>
+        match autoPosBad av (more.length + 1) with
+        | some pos => .error (badPosErr name rp pos (more.length + 1))
+        | none =>
+          .ok (.leaf (autoLeafT σ fm (operandName av ((a0 :: more.map (·.2)).map (renderArg σ)))
+            { id := cid, tok := name, name := name.lit, args := (a0 :: more.map (·.2)).map (renderArg σ) }),
+            cid + 1)
+
+def noSwitchesErr (ps : Tok) : PFail :=
+  newParseError ps "poryswitch used, but no compile switches were specified with the '-s' option"
+def undefinedSwitchErr (x : Tok) : PFail :=
+  newParseError x s!"no poryswitch for '{x.lit}' was specified with the '-s' option"
+def noPoryCaseErr (ps x : Tok) (v : String) : PFail :=
+  newParseError ps s!"no poryswitch case found for '{x.lit}={v}', which was specified with the '-s' option"
+
 /-- The command node of a command statement. -/
 def cmdNode (cid : Nat) (name : Tok) (args : List String) : Stmt :=
   .cmd { id := cid, tok := name, name := name.lit, args := args }
@@ -208,7 +304,7 @@ def operandOf (σ : String → String) (ops : List Tok) (rp2 : Tok) : Tok :=
 
 mutual
 /-- One statement. `nx` = the token after the statement is `}`. -/
-def elabS (σ : String → String) (B C : List Nat) (nx : Bool) :
+def elabS (env : Env) (σ : String → String) (B C : List Nat) (nx : Bool) :
     SStmt → Nat → Nat → Except PFail (List Stmt × Nat × Nat)
   | .cmd name _ a0 more _, sid, cid =>
       .ok ([cmdNode cid name ((a0 :: more.map (·.2)).map (renderArg σ))], sid, cid + 1)
@@ -217,27 +313,36 @@ def elabS (σ : String → String) (B C : List Nat) (nx : Bool) :
   | .label name _, sid, cid => .ok ([.label name name.lit false], sid, cid)
   | .labelS name _ sc _ _, sid, cid => .ok ([.label name name.lit (sc.type == .GLOBAL)], sid, cid)
   | .ite ifTok _ c _ _ body _ elifs els, sid, cid =>
-      match elabL σ B C true body sid cid with
+      match elabCond env σ c cid with
       | .error e => .error e
-      | .ok (b, sid1, cid1) =>
-        match elabElifs σ B C elifs sid1 cid1 with
+      | .ok (t, cid0) =>
+        match elabL env σ B C true body sid cid0 with
         | .error e => .error e
-        | .ok (es, sid2, cid2) =>
-          match elabElse σ B C els sid2 cid2 with
+        | .ok (b, sid1, cid1) =>
+          match elabElifs env σ B C elifs sid1 cid1 with
           | .error e => .error e
-          | .ok (el, sid3, cid3) => .ok ([.ite ifTok (treeOr σ false c) b es el], sid3, cid3)
+          | .ok (es, sid2, cid2) =>
+            match elabElse env σ B C els sid2 cid2 with
+            | .error e => .error e
+            | .ok (el, sid3, cid3) => .ok ([.ite ifTok t b es el], sid3, cid3)
   | .while_ w _ c _ _ body _, sid, cid =>
-      match elabL σ (sid :: B) (sid :: C) true body (sid + 1) cid with
+      match elabCond env σ c cid with
       | .error e => .error e
-      | .ok (b, sid1, cid1) => .ok ([.while_ w sid (some (treeOr σ false c)) b], sid1, cid1)
+      | .ok (t, cid0) =>
+        match elabL env σ (sid :: B) (sid :: C) true body (sid + 1) cid0 with
+        | .error e => .error e
+        | .ok (b, sid1, cid1) => .ok ([.while_ w sid (some t) b], sid1, cid1)
   | .whileInf w _ body _, sid, cid =>
-      match elabL σ (sid :: B) (sid :: C) true body (sid + 1) cid with
+      match elabL env σ (sid :: B) (sid :: C) true body (sid + 1) cid with
       | .error e => .error e
       | .ok (b, sid1, cid1) => .ok ([.while_ w sid none b], sid1, cid1)
   | .doWhile d _ body _ _ _ c _, sid, cid =>
-      match elabL σ (sid :: B) (sid :: C) true body (sid + 1) cid with
+      match elabL env σ (sid :: B) (sid :: C) true body (sid + 1) cid with
       | .error e => .error e
-      | .ok (b, sid1, cid1) => .ok ([.doWhile d sid (treeOr σ false c) b], sid1, cid1)
+      | .ok (b, sid1, cid1) =>
+        match elabCond env σ c cid1 with
+        | .error e => .error e
+        | .ok (t, cid2) => .ok ([.doWhile d sid t b], sid1, cid2)
   | .brk t, sid, cid =>
       match B with
       | [] => .error (breakOutsideErr t)
@@ -247,61 +352,106 @@ def elabS (σ : String → String) (B C : List Nat) (nx : Bool) :
       | [] => .error (continueOutsideErr t)
       | c :: _ => if nx then .ok ([.cont t c], sid, cid) else .error (continueNotLastErr t)
   | .switch_ sw _ _ _ ops rp2 _ _ cases rb, sid, cid =>
-      match elabCases σ (sid :: B) C cases [] false (sid + 1) cid with
+      match elabCases env σ (sid :: B) C cases [] false (sid + 1) cid with
       | .error e => .error e
       | .ok (cs, sid1, cid1) =>
         if cs.isEmpty then .error (emptySwitchErr sw rb)
         else .ok ([.switch_ sw sid (operandOf σ ops rp2) cs], sid1, cid1)
+  | .switchA sw _ name _ a0 more rp2 _ _ cases rb, sid, cid =>
+      match env.autoVars.lookup name.lit with
+      | none => .error (notAutoVarErr name)
+      | some av =>
+        match autoPosBad av (more.length + 1) with
+        | some pos => .error (badPosErr name rp2 pos (more.length + 1))
+        | none =>
+          match elabCases env σ (sid :: B) C cases [] false (sid + 1) (cid + 1) with
+          | .error e => .error e
+          | .ok (cs, sid1, cid1) =>
+            if cs.isEmpty then .error (emptySwitchErr sw rb)
+            else
+              .ok ([cmdNode cid name ((a0 :: more.map (·.2)).map (renderArg σ)),
+                    .switch_ sw sid
+                      { name with type := .IDENT,
+                                  lit := operandName av ((a0 :: more.map (·.2)).map (renderArg σ)) } cs],
+                   sid1, cid1)
+  | .pory ps _ x _ _ cases _, sid, cid =>
+      if env.envErrors && env.switches.isEmpty then .error (noSwitchesErr ps)
+      else if env.envErrors && (env.switches.lookup x.lit).isNone then .error (undefinedSwitchErr x)
+      else
+        match elabPCases env σ B C cases [] sid cid with
+        | .error e => .error e
+        | .ok (table, sid1, cid1) =>
+          match selectCase env table (swVal env x.lit) with
+          | some r => .ok (r.1, sid1, cid1)
+          | none =>
+            if env.envErrors then .error (noPoryCaseErr ps x (swVal env x.lit)) else .ok ([], sid1, cid1)
 /-- A statement list. `last` = the token after the list is `}`. -/
-def elabL (σ : String → String) (B C : List Nat) (last : Bool) :
+def elabL (env : Env) (σ : String → String) (B C : List Nat) (last : Bool) :
     List SStmt → Nat → Nat → Except PFail (List Stmt × Nat × Nat)
   | [], sid, cid => .ok ([], sid, cid)
   | x :: r, sid, cid =>
-      match elabS σ B C (r.isEmpty && last) x sid cid with
+      match elabS env σ B C (r.isEmpty && last) x sid cid with
       | .error e => .error e
       | .ok (a, sid1, cid1) =>
-        match elabL σ B C last r sid1 cid1 with
+        match elabL env σ B C last r sid1 cid1 with
         | .error e => .error e
         | .ok (b, sid2, cid2) => .ok (a ++ b, sid2, cid2)
-def elabElifs (σ : String → String) (B C : List Nat) :
+def elabElifs (env : Env) (σ : String → String) (B C : List Nat) :
     List SElif → Nat → Nat → Except PFail (List (BoolExpr × List Stmt) × Nat × Nat)
   | [], sid, cid => .ok ([], sid, cid)
   | .mk _ _ c _ _ body _ :: r, sid, cid =>
-      match elabL σ B C true body sid cid with
+      match elabCond env σ c cid with
       | .error e => .error e
-      | .ok (b, sid1, cid1) =>
-        match elabElifs σ B C r sid1 cid1 with
+      | .ok (t, cid0) =>
+        match elabL env σ B C true body sid cid0 with
         | .error e => .error e
-        | .ok (es, sid2, cid2) => .ok ((treeOr σ false c, b) :: es, sid2, cid2)
-def elabElse (σ : String → String) (B C : List Nat) :
+        | .ok (b, sid1, cid1) =>
+          match elabElifs env σ B C r sid1 cid1 with
+          | .error e => .error e
+          | .ok (es, sid2, cid2) => .ok ((t, b) :: es, sid2, cid2)
+def elabElse (env : Env) (σ : String → String) (B C : List Nat) :
     SElse → Nat → Nat → Except PFail (Option (List Stmt) × Nat × Nat)
   | .none, sid, cid => .ok (none, sid, cid)
   | .some _ _ body _, sid, cid =>
-      match elabL σ B C true body sid cid with
+      match elabL env σ B C true body sid cid with
       | .error e => .error e
       | .ok (b, sid1, cid1) => .ok (some b, sid1, cid1)
 /-- The cases of a switch. `seen` = the case values met so far, `hd` = a `default` was met. -/
-def elabCases (σ : String → String) (B C : List Nat) :
+def elabCases (env : Env) (σ : String → String) (B C : List Nat) :
     List SCase → List String → Bool → Nat → Nat → Except PFail (List SwitchCase × Nat × Nat)
   | [], _, _, sid, cid => .ok ([], sid, cid)
   | .case c vs colon body :: r, seen, hd, sid, cid =>
       if seen.contains (caseValue σ vs) then .error (duplicateCaseErr c colon (caseValue σ vs))
       else
-        match elabL σ B C r.isEmpty body sid cid with
+        match elabL env σ B C r.isEmpty body sid cid with
         | .error e => .error e
         | .ok (b, sid1, cid1) =>
-          match elabCases σ B C r (caseValue σ vs :: seen) hd sid1 cid1 with
+          match elabCases env σ B C r (caseValue σ vs :: seen) hd sid1 cid1 with
           | .error e => .error e
           | .ok (cs, sid2, cid2) => .ok ((caseTok σ vs colon, false, b) :: cs, sid2, cid2)
   | .dflt d _ body :: r, seen, hd, sid, cid =>
       if hd then .error (secondDefaultErr d)
       else
-        match elabL σ B C r.isEmpty body sid cid with
+        match elabL env σ B C r.isEmpty body sid cid with
         | .error e => .error e
         | .ok (b, sid1, cid1) =>
-          match elabCases σ B C r seen true sid1 cid1 with
+          match elabCases env σ B C r seen true sid1 cid1 with
           | .error e => .error e
           | .ok (cs, sid2, cid2) => .ok ((({} : Tok), true, b) :: cs, sid2, cid2)
+/-- The cases of a poryswitch: ALL of them are elaborated, in source order (ids are handed out, violations
+reported); the result is the table the parser selects from (newest entry first). -/
+def elabPCases (env : Env) (σ : String → String) (B C : List Nat) :
+    List SPCase → List (String × List Stmt × ImpData) → Nat → Nat →
+      Except PFail (List (String × List Stmt × ImpData) × Nat × Nat)
+  | [], acc, sid, cid => .ok (acc, sid, cid)
+  | .colon key _ x :: r, acc, sid, cid =>
+      match elabS env σ B C r.isEmpty x sid cid with
+      | .error e => .error e
+      | .ok (a, sid1, cid1) => elabPCases env σ B C r ((key.lit, a, {}) :: acc) sid1 cid1
+  | .brace key _ body _ :: r, acc, sid, cid =>
+      match elabL env σ B C true body sid cid with
+      | .error e => .error e
+      | .ok (a, sid1, cid1) => elabPCases env σ B C r ((key.lit, a, {}) :: acc) sid1 cid1
 end
 
 /-- What the parser threads through a script body. -/
@@ -318,29 +468,31 @@ def ctxOf (s : PState) : Ctx :=
     breakStack := s.breakStack, continueStack := s.continueStack }
 
 /-- The reference elaboration with located errors, on a context (for a `{ … }` block). -/
-def elabE (c : Ctx) (b : List SStmt) : Except PFail (List Stmt × Ctx) :=
-  match elabL (substC c.consts) c.breakStack c.continueStack true b c.nextSid c.nextCmdId with
+def elabE (env : Env) (c : Ctx) (b : List SStmt) : Except PFail (List Stmt × Ctx) :=
+  match elabL env (substC c.consts) c.breakStack c.continueStack true b c.nextSid c.nextCmdId with
   | .error e => .error e
   | .ok (stmts, sid, cid) => .ok (stmts, { c with nextSid := sid, nextCmdId := cid })
 
 /-- **The reference elaboration** of a `{ … }` block: `none` exactly for the documented violations. -/
-def elaborate (c : Ctx) (b : List SStmt) : Option (List Stmt × Ctx) := (elabE c b).toOption
+def elaborate (env : Env) (c : Ctx) (b : List SStmt) : Option (List Stmt × Ctx) := (elabE env c b).toOption
 
-theorem elaborate_some {c : Ctx} {b : List SStmt} {r : List Stmt × Ctx} (h : elaborate c b = some r) :
-    elabE c b = .ok r := by
+theorem elaborate_some {env : Env} {c : Ctx} {b : List SStmt} {r : List Stmt × Ctx}
+    (h : elaborate env c b = some r) : elabE env c b = .ok r := by
   unfold elaborate at h
-  cases h' : elabE c b with
+  cases h' : elabE env c b with
   | error e => rw [h'] at h; cases h
   | ok r' => rw [h'] at h; cases h; rfl
 
-theorem elaborate_none {c : Ctx} {b : List SStmt} (h : elaborate c b = none) : ∃ e, elabE c b = .error e := by
+theorem elaborate_none {env : Env} {c : Ctx} {b : List SStmt} (h : elaborate env c b = none) :
+    ∃ e, elabE env c b = .error e := by
   unfold elaborate at h
-  cases h' : elabE c b with
+  cases h' : elabE env c b with
   | error e => exact ⟨e, rfl⟩
   | ok r' => rw [h'] at h; cases h
 
 /-- The stacks of the resulting context are those at entry. -/
-theorem elabE_stacks {c c' : Ctx} {b : List SStmt} {stmts : List Stmt} (h : elabE c b = .ok (stmts, c')) :
+theorem elabE_stacks {env : Env} {c c' : Ctx} {b : List SStmt} {stmts : List Stmt}
+    (h : elabE env c b = .ok (stmts, c')) :
     c'.breakStack = c.breakStack ∧ c'.continueStack = c.continueStack ∧ c'.consts = c.consts := by
   unfold elabE at h
   split at h
@@ -375,6 +527,8 @@ def lastS : SStmt → Tok
   | .brk t => t
   | .cont t => t
   | .switch_ _ _ _ _ _ _ _ _ _ rb => rb
+  | .switchA _ _ _ _ _ _ _ _ _ _ rb => rb
+  | .pory _ _ _ _ _ _ rb => rb
 
 /-! ### fuel -/
 mutual
@@ -384,19 +538,21 @@ def needS : SStmt → Nat
   | .cmd0 _ => 1
   | .label _ _ => 1
   | .labelS _ _ _ _ _ => 1
-  | .ite _ _ c _ _ body _ elifs els => 3 + needOr c + needL body + needElifs elifs + needElse els
-  | .while_ _ _ c _ _ body _ => 3 + needOr c + needL body
+  | .ite _ _ c _ _ body _ elifs els => 3 + needCond c + needL body + needElifs elifs + needElse els
+  | .while_ _ _ c _ _ body _ => 3 + needCond c + needL body
   | .whileInf _ _ body _ => 3 + needL body
-  | .doWhile _ _ body _ _ _ c _ => 2 + needL body + needOr c
+  | .doWhile _ _ body _ _ _ c _ => 2 + needL body + needCond c
   | .brk _ => 1
   | .cont _ => 1
   | .switch_ _ _ _ _ ops _ _ _ cases _ => 3 + ops.length + needCases cases
+  | .switchA _ _ _ _ a0 more _ _ _ cases _ => 4 + a0.length + (printMore more).length + needCases cases
+  | .pory _ _ _ _ _ cases _ => 2 + needPCases cases
 def needL : List SStmt → Nat
   | [] => 1
   | x :: r => 1 + needS x + needL r
 def needElifs : List SElif → Nat
   | [] => 1
-  | .mk _ _ c _ _ body _ :: r => 2 + needOr c + needL body + needElifs r
+  | .mk _ _ c _ _ body _ :: r => 2 + needCond c + needL body + needElifs r
 def needElse : SElse → Nat
   | .none => 0
   | .some _ _ body _ => needL body
@@ -404,9 +560,21 @@ def needCases : List SCase → Nat
   | [] => 1
   | .case _ vs _ body :: r => 2 + vs.length + needL body + needCases r
   | .dflt _ _ body :: r => 1 + needL body + needCases r
+def needPCases : List SPCase → Nat
+  | [] => 1
+  | .colon _ _ x :: r => 2 + needS x + needPCases r
+  | .brace _ _ body _ :: r => 1 + needL body + needPCases r
 end
 
 /-! ### the fuel bound is linear in the number of tokens -/
+
+theorem needCond_le (c : SCond) : needCond c ≤ 2 * (printCond c).length + 1 := by
+  cases c with
+  | plain g => exact needOr_le g
+  | auto fm name lp a0 more rp =>
+    simp only [needCond, printCond, printAuto, printCmd, List.length_append, List.length_cons,
+      List.length_nil]
+    omega
 
 mutual
 theorem needS_le : (x : SStmt) → needS x + 1 ≤ 2 * (printS x).length
@@ -416,21 +584,27 @@ theorem needS_le : (x : SStmt) → needS x + 1 ≤ 2 * (printS x).length
   | .label _ _ => by simp [needS, printS]
   | .labelS _ _ _ _ _ => by simp [needS, printS]
   | .ite _ _ c _ _ body _ elifs els => by
-    have := needOr_le c; have := needL_le body; have := needElifs_le elifs; have := needElse_le els
+    have := needCond_le c; have := needL_le body; have := needElifs_le elifs; have := needElse_le els
     simp only [needS, printS, List.length_cons, List.length_append]; omega
   | .while_ _ _ c _ _ body _ => by
-    have := needOr_le c; have := needL_le body
+    have := needCond_le c; have := needL_le body
     simp only [needS, printS, List.length_cons, List.length_append, List.length_nil]; omega
   | .whileInf _ _ body _ => by
     have := needL_le body
     simp only [needS, printS, List.length_cons, List.length_append, List.length_nil]; omega
   | .doWhile _ _ body _ _ _ c _ => by
-    have := needOr_le c; have := needL_le body
+    have := needCond_le c; have := needL_le body
     simp only [needS, printS, List.length_cons, List.length_append, List.length_nil]; omega
   | .brk _ => by simp [needS, printS]
   | .cont _ => by simp [needS, printS]
   | .switch_ _ _ _ _ ops _ _ _ cases _ => by
     have := needCases_le cases
+    simp only [needS, printS, List.length_cons, List.length_append, List.length_nil]; omega
+  | .switchA _ _ _ _ a0 more _ _ _ cases _ => by
+    have := needCases_le cases
+    simp only [needS, printS, printCmd, List.length_cons, List.length_append, List.length_nil]; omega
+  | .pory _ _ _ _ _ cases _ => by
+    have := needPCases_le cases
     simp only [needS, printS, List.length_cons, List.length_append, List.length_nil]; omega
 theorem needL_le : (b : List SStmt) → needL b ≤ 2 * (printL b).length + 1
   | [] => by simp [needL, printL]
@@ -440,7 +614,7 @@ theorem needL_le : (b : List SStmt) → needL b ≤ 2 * (printL b).length + 1
 theorem needElifs_le : (es : List SElif) → needElifs es ≤ 2 * (printElifs es).length + 1
   | [] => by simp [needElifs, printElifs]
   | .mk _ _ c _ _ body _ :: r => by
-    have := needOr_le c; have := needL_le body; have := needElifs_le r
+    have := needCond_le c; have := needL_le body; have := needElifs_le r
     simp only [needElifs, printElifs, printElif, List.length_cons, List.length_append, List.length_nil]; omega
 theorem needElse_le : (e : SElse) → needElse e ≤ 2 * (printElse e).length + 1
   | .none => by simp [needElse]
@@ -455,6 +629,14 @@ theorem needCases_le : (cs : List SCase) → needCases cs ≤ 2 * (printCases cs
   | .dflt _ _ body :: r => by
     have := needL_le body; have := needCases_le r
     simp only [needCases, printCases, printCase, List.length_cons, List.length_append]; omega
+theorem needPCases_le : (cs : List SPCase) → needPCases cs ≤ 2 * (printPCases cs).length + 1
+  | [] => by simp [needPCases, printPCases]
+  | .colon _ _ x :: r => by
+    have := needS_le x; have := needPCases_le r
+    simp only [needPCases, printPCases, printPCase, List.length_cons, List.length_append]; omega
+  | .brace _ _ body _ :: r => by
+    have := needL_le body; have := needPCases_le r
+    simp only [needPCases, printPCases, printPCase, List.length_cons, List.length_append, List.length_nil]; omega
 end
 
-end Pory.P1
+end Pory.StmtG
